@@ -3,6 +3,8 @@ import ClusterVerif.Lemmas.C04Faults
 import ClusterVerif.Model.C04Source
 import ClusterVerif.Gen.C04
 import ClusterVerif.Lemmas.C04Rpc
+import ClusterVerif.Lemmas.C04Sem
+import ClusterVerif.Gen.C04Sem
 
 /-!
 # C04 — pin, unpin and update change the pinset exactly as requested, or not at all
@@ -678,5 +680,81 @@ theorem gen_source_pinWithOpts : Gen.pinWithOpts = Expected.pinWithOpts := rfl
 theorem gen_source_isRemotePin : Gen.isRemotePin = Expected.isRemotePin := rfl
 theorem gen_source_expiredAt : Gen.expiredAt = Expected.expiredAt := rfl
 
+
+
+/-! ## Round 8b — the statement sequences of cluster.go, interpreted
+
+`harness/extract_c04sem` regenerates `Gen.semProgs` from the go/ast of `Cluster.Pin`, `PinPath`, `UnpinPath`, `pin`,
+`setupPin`, `Unpin`, `PinUpdate`: which constructor builds the pin, what is assigned to it, every guard (with its
+conjuncts) and early return in order, the case order of Unpin's switch. `Sem.stepSem` RUNS these sequences. -/
+
+/-- the regenerated statement sequences are the ones the theorems below were proved for -/
+theorem gen_sem_programs : Gen.semProgs = Sem.expected := by decide
+
+/-- ALL inputs: running the regenerated sequences is the hand-written model (plus `pin()`'s `cid.Undef` guard, which
+    the hand-written model cannot express). No statement of unknown shape is reached. -/
+theorem sem_is_model (cfg : Cfg) (pre : PinMap) (op : Op) (chosen : List Nat) :
+    Sem.stepSem Gen.semProgs cfg pre op chosen = some (Sem.stepU cfg pre op chosen) := by
+  rw [gen_sem_programs]; exact Sem.stepSem_expected cfg pre op chosen
+
+/-- ALL inputs: every clause of C04 holds for the outcome the interpreted code computes (calls naming defined cids). -/
+theorem sem_step_holds (cfg : Cfg) (pre : PinMap) (op : Op) (chosen : List Nat)
+    (hpre : pre.wfState = true) (hcfg : wfCfg cfg = true) (hop : wfOp op = true) (hdef : Sem.opDefined cfg op = true)
+    (halloc : ∀ ai, (step cfg pre op chosen).alloc = some ai → C03.allowed ai (.ok chosen) = true) :
+    ∃ out, Sem.stepSem Gen.semProgs cfg pre op chosen = some out ∧ holds cfg pre op out.res out.post = true := by
+  refine ⟨_, sem_is_model cfg pre op chosen, ?_⟩
+  have h : Sem.stepU cfg pre op chosen = step cfg pre op chosen := by
+    cases op <;> simp [Sem.stepU, Sem.opDefined] at hdef ⊢ <;> simp_all
+  rw [h]; exact step_holds cfg pre op chosen hpre hcfg hop halloc
+
+/-- `pin()`'s `cid.Undef` guard: a pin object without a cid is refused, nothing is logged, the pinset is unchanged. -/
+theorem sem_undef_cid_refused (cfg : Cfg) (pre : PinMap) (p : Pin) (chosen : List Nat) (h : p.cid = Sem.undefCid) :
+    Sem.stepSem Gen.semProgs cfg pre (.rpcPin p) chosen = some (err pre) := by
+  rw [sem_is_model]; simp [Sem.stepU, h]
+
+private def semCfg : Cfg :=
+  { follower := false, defMin := -1, defMax := -1, desc := false, peers := [(0, .valid 1)], paths := [(0, 3)], blocks := [] }
+private def semDirect : Opts := { noOpts with mode := .direct }
+private def semPre : PinMap := [{ pinWithOpts 3 { noOpts with rmin := -1, rmax := -1 } with allocs := [] }]
+
+/-- REFUTED (seeded C04g): a PinPath that builds the pin from `api.PinCid` and assigns the options — the sequence the
+    translator emits for that edit — stores a direct request as a recursive pin (MaxDepth stays −1). -/
+theorem sem_c04g_fails :
+    ¬ (∀ cfg pre op ch out, pre.wfState = true → wfCfg cfg = true → wfOp op = true →
+        Sem.stepSem Sem.progC04g cfg pre op ch = some out → holds cfg pre op out.res out.post = true) := by
+  intro h
+  have := h semCfg [] (.pinPath 0 semDirect) [] _ rfl rfl rfl rfl
+  revert this; decide
+
+/-- the same edit WITH `pin.MaxDepth = opts.Mode.ToPinDepth()` is harmless: same outcome as the unchanged code, ALL inputs. -/
+theorem sem_c04g_repaired_same (cfg : Cfg) (pre : PinMap) (op : Op) (ch : List Nat) :
+    Sem.stepSem Sem.progC04gRepaired cfg pre op ch = Sem.stepSem Sem.expected cfg pre op ch := by
+  cases op with
+  | pinPath path o =>
+    simp [Sem.stepSem, Sem.pinPathSem, Sem.progC04gRepaired, Sem.expected, Sem.runPath, Sem.pinPublicSem, Sem.runPinPublic,
+      pinCid, pinWithOpts, Sem.pinSem]
+    split_ifs <;> rfl
+  | _ => rfl
+
+/-- REFUTED: `setupPin` without the recursive → direct guard accepts a listed refusal. -/
+theorem sem_no_mode_guard_fails :
+    ¬ (∀ cfg pre op ch out, pre.wfState = true → wfCfg cfg = true → wfOp op = true →
+        Sem.stepSem Sem.progNoModeGuard cfg pre op ch = some out → holds cfg pre op out.res out.post = true) := by
+  intro h
+  have := h semCfg semPre (.pin 3 semDirect) [] _ rfl rfl rfl rfl
+  revert this; decide
+
+/-- REFUTED: `Unpin` without its follower guard writes in follower mode. -/
+theorem sem_unpin_no_follower_guard_fails :
+    ¬ (∀ cfg pre op ch out, pre.wfState = true → wfCfg cfg = true → wfOp op = true →
+        Sem.stepSem Sem.progUnpinNoFollowerGuard cfg pre op ch = some out → holds cfg pre op out.res out.post = true) := by
+  intro h
+  have := h { semCfg with follower := true } semPre (.unpin 3) [] _ rfl rfl rfl rfl
+  revert this; decide
+
+/-- non-vacuity: a direct pin by path meets the hypotheses of `sem_step_holds`, succeeds, and is stored direct. -/
+example : (semPre.wfState && wfCfg semCfg && wfOp (.pinPath 0 semDirect) && Sem.opDefined semCfg (.pinPath 0 semDirect)) = true ∧
+    ((Sem.stepSem Sem.expected semCfg [] (.pinPath 0 semDirect) []).bind (fun o => o.post.get 3)).map (·.opts.mode) = some .direct := by
+  decide
 
 end CV.C04
